@@ -47,6 +47,9 @@ func has(f figs, path string) bool { _, ok := f[path]; return ok }
 
 func judge(p docgen.Plan, o *vh.Obs) {
 	out := billrun.Run(p)
+	if p.CustomerRates != "" {
+		o.Class("customer-rates")
+	}
 	if out.Err != nil {
 		o.Class("calc-error")
 		o.Discard()
